@@ -37,8 +37,8 @@ package types
 // canonical text of a 32-byte hash: 0x + lower-case hex, exactly as common.Hash prints it
 //@ ghost func vauthHashText(h string) bool = len(h) >= 2 && substr(h, 0, 2) == "0x" && strings.ToLower(common.HexToHash(h).Hex()) == h
 // the exact acceptance conditions of the two ValidateBasic functions
-//@ ghost func vauthMsgValid(submitter string, account string, sig string) bool = bech32Valid(submitter) && bech32Valid(account) && bech32Bytes(submitter) != bech32Bytes(account) && vauthSigText(sig) && sigRecovers(hexDec(vauthSigHex(sig)), MessageToSign) && vauthSigMatches(account, sig)
-//@ ghost func vauthProofValid(account string, hash string, sig string) bool = bech32Valid(account) && vauthHashText(hash) && vauthSigText(sig) && strings.ToLower(sig) == sig && sigRecovers(hexDec(vauthSigHex(sig)), MessageToSign) && vauthSigMatches(account, sig)
+//@ ghost func vauthMsgValid(submitter string, account string, sig string) bool = bech32Valid(submitter) && bech32Valid(account) && blen(bech32Bytes(account)) == 20 && bech32Bytes(submitter) != bech32Bytes(account) && vauthSigText(sig) && sigRecovers(hexDec(vauthSigHex(sig)), MessageToSign) && vauthSigMatches(account, sig)
+//@ ghost func vauthProofValid(account string, hash string, sig string) bool = bech32Valid(account) && blen(bech32Bytes(account)) == 20 && vauthHashText(hash) && vauthSigText(sig) && strings.ToLower(sig) == sig && sigRecovers(hexDec(vauthSigHex(sig)), MessageToSign) && vauthSigMatches(account, sig)
 
 //@ func (m *MsgSubmitProofExternalOwnedAccount) ValidateBasic() (err error)
 //@   requires m != nil
